@@ -296,6 +296,22 @@ func (m *ModeManager) drSwitchToSyncRecoverWithLock() error {
 func (m *ModeManager) drSwitchToSync() error {
 	m.Lock()
 	defer m.Unlock()
+	return m.drSwitchToSyncWithLock()
+}
+
+// drSwitchToSyncFrom switches to the sync state only if the state is still the sync_recover state with the
+// given id: the regions have reported their integrity under that id, and a configuration update may have
+// switched the state (with a new id) after they were checked.
+func (m *ModeManager) drSwitchToSyncFrom(stateID uint64) error {
+	m.Lock()
+	defer m.Unlock()
+	if m.drAutoSync.State != drStateSyncRecover || m.drAutoSync.StateID != stateID {
+		return nil
+	}
+	return m.drSwitchToSyncWithLock()
+}
+
+func (m *ModeManager) drSwitchToSyncWithLock() error {
 	id, err := m.cluster.AllocID()
 	if err != nil {
 		log.Warn("failed to switch to sync state", zap.String("replicate-mode", modeDRAutoSync), errs.ZapError(err))
@@ -337,6 +353,12 @@ func (m *ModeManager) drGetState() string {
 	m.RLock()
 	defer m.RUnlock()
 	return m.drAutoSync.State
+}
+
+func (m *ModeManager) drGetStateAndID() (string, uint64) {
+	m.RLock()
+	defer m.RUnlock()
+	return m.drAutoSync.State, m.drAutoSync.StateID
 }
 
 const (
@@ -394,13 +416,13 @@ func (m *ModeManager) tickDR() {
 		m.drSwitchToSyncRecover()
 	}
 
-	if m.drGetState() == drStateSyncRecover {
+	if state, stateID := m.drGetStateAndID(); state == drStateSyncRecover {
 		m.updateProgress()
 		progress := m.estimateProgress()
 		drRecoverProgressGauge.Set(float64(progress))
 
 		if progress == 1.0 {
-			m.drSwitchToSync()
+			m.drSwitchToSyncFrom(stateID)
 		} else {
 			m.updateRecoverProgress(progress)
 		}
